@@ -217,6 +217,29 @@ Section HistModel.
     | None => None
     end.
 
+  (* HistoryTree.AddBulk: one insert visitor (write cache + mutation list) for the whole bulk *)
+  Fixpoint bulk_go (base : cache) (evs : list E) (version : N) (st : ins_state) : option (list D * ins_state) :=
+    match evs with
+    | [] => Some ([], st)
+    | e :: r =>
+        match interp_ins base (pruneToInsert version e) st with
+        | None => None
+        | Some (d, st1) =>
+            match bulk_go base r (version + 1) st1 with
+            | None => None
+            | Some (ds, st2) => Some (d :: ds, st2)
+            end
+        end
+    end.
+  Definition tree_add_bulk (base : cache) (evs : list E) (version : N) : option (list D * list (pos * D)) :=
+    match bulk_go base evs version ([], []) with
+    | Some (ds, (_, muts)) => Some (ds, rev muts)
+    | None => None
+    end.
+
+  (* store.Mutate(mutations) as seen by later reads *)
+  Definition store_apply (st : cache) (muts : list (pos * D)) : cache := ins_get st (rev muts).
+
   Definition prove_membership (store : cache) (index version : N) : option (list (pos * D)) :=
     let o := if index =? version then pruneToFind index else pruneToFindConsistent index version in
     match interp store o with Some _ => Some (collect store o) | None => None end.
@@ -242,3 +265,4 @@ Arguments checkc_go {E}. Arguments pruneToCheckConsistency {E}.
 Arguments verify_go {E}. Arguments pruneToVerify {E}. Arguments vstart_go {E}. Arguments pruneToVerifyIncrementalStart {E}.
 Arguments vend_go {E}. Arguments pruneToVerifyIncrementalEnd {E}.
 Arguments path_get {D}.
+Arguments ins_get {D}.
